@@ -370,9 +370,12 @@ impl CompressedState {
             Flavor::Sparse | Flavor::Hybrid => has_table && !has_window,
             Flavor::Pinned | Flavor::Sliding => has_window,
         };
+        // table entries are surprising ones (at most C of them) and, once the window has moved,
+        // surprising zeros of the early zone (at most k per column the window has passed)
+        let max_entries = num_coupons as u64 + k * determine_correct_offset(lg_k, num_coupons) as u64;
         if !flags_ok
             || num_coupons as u64 > 64 * k
-            || self.table_num_entries > num_coupons
+            || self.table_num_entries as u64 > max_entries
             // a pair takes at least two bits, a window byte at least one
             || self.table_num_entries as u64 > 16 * self.table_data.len() as u64
             || (has_window && 32 * (self.window_data.len() as u64) < k)
